@@ -84,7 +84,7 @@ func init() {
 		portaudio.Reset()
 	})
 	register("gb.new", func(a []string) {
-		gbNew(ai(a, 1), a[2], optBool(a, 3, true), optBool(a, 4, false), optBool(a, 5, false))
+		gbNew(ai(a, 1), strings.ReplaceAll(a[2], "%20", " "), optBool(a, 3, true), optBool(a, 4, false), optBool(a, 5, false))
 	})
 	register("gb.newsyn", func(a []string) {
 		romc := ai(a, 3)
@@ -97,6 +97,20 @@ func init() {
 		f.Close()
 		defer os.Remove(f.Name())
 		gbNew(ai(a, 1), f.Name(), true, false, false)
+	})
+	register("gb.newloop", func(a []string) {
+		romc := ai(a, 3)
+		img := make([]byte, 0x8000<<uint(romc))
+		img[0x100], img[0x101] = 0x18, 0xfe
+		img[0x147], img[0x148], img[0x149] = byte(ai(a, 2)), byte(romc), byte(ai(a, 4))
+		f, err := ioutil.TempFile("", "verif-rom-*.gb")
+		if err != nil {
+			panic(err)
+		}
+		f.Write(img)
+		f.Close()
+		defer os.Remove(f.Name())
+		gbNew(ai(a, 1), f.Name(), true, optBool(a, 5, false), optBool(a, 6, false))
 	})
 	register("gb.frames", func(a []string) {
 		g := gbs[ai(a, 1)]
@@ -180,8 +194,9 @@ func init() {
 		done := make(chan struct{})
 		go func() { g.gb.Run(ctx); close(done) }()
 		time.Sleep(time.Duration(ai(a, 2)) * time.Millisecond)
-		before := glfw.SwapCalls
 		cancel()
+		// read after the cancellation: only the frame in progress may still complete
+		before := glfw.SwapCalls
 		select {
 		case <-done:
 			extra := glfw.SwapCalls - before
